@@ -85,6 +85,8 @@ def run(ctx):
              ('cf2d', dict(ny=3, nx=4, holes='none', bounds=True, bad_bounds=rng.choice(['xy_nv', 'nv_xy']))),
              ('cf2d', dict(ny=4, nx=4, holes='interior', bounds=True, bad_bounds=rng.choice(['xy_nv', 'nv_yx', 'five', 'lat_only_xy_nv']))),
              ('cf1d', dict(ny=3, nx=4, bounds=True, bad_bounds=rng.choice(['transposed', 'three']))),
+             ('cf1d', dict(ny=3, nx=4, mixed_dtypes='lon_int')), ('cf1d', dict(ny=4, nx=3, mixed_dtypes='lat_int')),
+             ('cf1d', dict(ny=3, nx=3, mixed_dtypes='lon_f4')),
              ('shoc_simple', dict(ny=3, nx=4, bounds=False, holes='random')),
              ('shoc_standard', dict(nj=3, ni=3, holes='corner')), ('shoc_standard', dict(nj=2, ni=3, invalid=True)),
              ('ugrid', dict(w=3, h=3)), ('ugrid', dict(w=2, h=2, invalid=True))]
